@@ -253,10 +253,10 @@ static void explore(Result& R) {
       if (R.out_of_time(0.95)) R.cap("deadline in the history block");
       R["history_evaluations"] = st.evaluations; R["history_evaluations_with_free_face_slots"] = st.with_free_face_slots; R["history_evaluations_with_a_live_face_stored_beyond_the_live_count"] = st.with_live_face_beyond_live_count; R["history_evaluations_after_a_displacement"] = st.after_displacement; R["histories_ended_by_refusal_or_degenerate_mesh"] = st.dead;
       if (R.violations.empty() && (!st.with_live_face_beyond_live_count || !st.after_displacement)) R.internal_error = "history block vacuous"; }
-    R["evaluations"] = evals; R["transitions"] = evals; R["states"] = cases; R["distinct_nontrivial"] = cases; R["traces_validated_against_impl"] = evals; R["meshes"] = fam.size(); R["meshes_from_remeshing_bfs"] = from_bfs; R["bfs_meshes_skipped_for_zero_area_triangles"] = skipped_degenerate; R["equivariance_checks_skipped_hinge_exactly_at_135_degree_cutoff"] = g_skipped_at_threshold;
+    R["evaluations"] = evals; R["transitions"] = evals; R["states"] = cases; R["distinct_nontrivial"] = (long)wn[2] + R["history_evaluations_after_a_displacement"]; R["traces_validated_against_impl"] = evals; R["meshes"] = fam.size(); R["meshes_from_remeshing_bfs"] = from_bfs; R["bfs_meshes_skipped_for_zero_area_triangles"] = skipped_degenerate; R["equivariance_checks_skipped_hinge_exactly_at_135_degree_cutoff"] = g_skipped_at_threshold;
     R.reals["worst_net_force_ratio"] = wn[0]; R["cases_with_identically_zero_force"] = (long)wn[1];
     for (int ti = 0; ti < NTERMS; ti++) { R.tables["cases_with_nonzero_force_per_term"][term_name[ti]] = nonzero_per_term[ti]; if (!nonzero_per_term[ti] && R.exhaustive) R.internal_error = std::string("term never produced a force (vacuous): ") + term_name[ti]; }
-    R.strings["rule"] = "a case = (mesh, rotation, translation, scale, force term); the real force routine is run on a freshly initialised cell and node::force() compared with closed-form references (volume gradient cross-checked by finite differences, area gradients), net force/torque, and the same term on the rigidly moved mesh; the mesh family contains every distinct mesh reached by a depth-2 BFS over split/merge/swap from octahedron and cube; history block: every sequence over {apply_internal_forces, stretch, pull a node, shrink, split longest edge, merge shortest edge, rebase} up to the depth that ends in an evaluation, on 3 seeds x 2 parameter sets, through cell::apply_internal_forces on the living cell (stale caches, free slots)";
+    R.strings["rule"] = "distinct_nontrivial = cases (distinct tuples by construction) in which the term produced a non-zero force field, plus history evaluations that follow a displacement; a case = (mesh, rotation, translation, scale, force term); the real force routine is run on a freshly initialised cell and node::force() compared with closed-form references (volume gradient cross-checked by finite differences, area gradients), net force/torque, and the same term on the rigidly moved mesh; the mesh family contains every distinct mesh reached by a depth-2 BFS over split/merge/swap from octahedron and cube; history block: every sequence over {apply_internal_forces, stretch, pull a node, shrink, split longest edge, merge shortest edge, rebase} up to the depth that ends in an evaluation, on 3 seeds x 2 parameter sets, through cell::apply_internal_forces on the living cell (stale caches, free slots)";
     R.assumptions = {"tolerances: net force 1e-9*sum|F|, torque 1e-9*sum|F|*diameter, per-node forces 1e-9 of the largest contribution, equivariance 1e-8", "bending and angle regularisation: only net force, net torque and equivariance (their energies are not stated by the property)", "zero-area triangles are skipped as the code does by design", "the bending law is discontinuous at the 135 degree hinge cut-off by design: equivariance is not demanded of meshes with a hinge within 1e-6 rad of the cut-off (counted)", "effective tension of a face = face-type tension + (k_a/A_t)(A/A_t-1) with A_t the cell's own target area"};
 }
 
